@@ -15,7 +15,9 @@ SCRIPTS = {
 SCRIPTS['malt.pyct.naming.Namer.new_symbol'] = ('bounded/rt_namer.py', ['0', 'quick'])
 for _f in ('malt.core.ag_ctx.ControlStatusCtx.__enter__', 'malt.core.ag_ctx.ControlStatusCtx.__exit__', 'malt.core.ag_ctx.control_status_ctx',
            'malt.core.ag_ctx._control_ctx', 'malt.operators.function_wrappers.FunctionScope.__enter__',
-           'malt.operators.function_wrappers.FunctionScope.__exit__'):
+           'malt.operators.function_wrappers.FunctionScope.__exit__', 'malt.operators.function_wrappers.FunctionScope.__init__',
+           'malt.operators.function_wrappers.with_function_scope', 'malt.impl.api.do_not_convert.<locals>.wrapper',
+           'malt.impl.api.call_with_unspecified_conversion_status.<locals>.wrapper'):
   SCRIPTS[_f] = ('bounded/rt_ctx.py', ['0', 'quick'])
 for _f in ('malt.pyct.error_utils.ErrorMetadataBase.create_exception', 'malt.impl.api._ErrorMetadata.create_exception'):
   SCRIPTS[_f] = ('bounded/rt_errors.py', ['0', 'quick'])
@@ -32,6 +34,10 @@ for _f in ('_node_matches_argspec', '_arg_name'):
   SCRIPTS['malt.pyct.parser.' + _f] = ('bounded/rt_argspec.py', ['0', 'quick'])
 SCRIPTS['malt.pyct.transpiler.GenericTranspiler._erase_arg_defaults'] = ('bounded/c09_interface.py', ['1', 'quick'])
 
+for _f in ('Scope.__init__', 'Scope.finalize', 'Scope.referenced', 'Scope.enclosing_scope', 'Scope.free_vars', 'Scope.mark_param',
+           'ActivityAnalyzer._track_symbol', 'ActivityAnalyzer._enter_scope', 'ActivityAnalyzer._exit_scope'):
+  SCRIPTS['malt.pyct.static_analysis.activity.' + _f] = ('bounded/rt_scope.py', ['0', 'quick'])
+
 _cache = {}
 
 
@@ -47,7 +53,10 @@ def run_hook(function):
       res = json.loads(out.strip().splitlines()[-1])
       _cache[key] = res['failures'][0] if res.get('failures') else None
     except Exception:
-      _cache[key] = None
+      # the evaluator itself died inside the real code (it does not on the unchanged tree, and hooks are
+      # consulted only for obligations the solver left open): the script and its traceback are the replay
+      _cache[key] = dict(kind='hook-crash', sig=os.path.basename(script), what='run-time contract evaluator crashed: '
+                         + (err or out)[-600:], script=script, args=list(args)) if rc not in (0, None) else None
   return _cache[key]
 
 
